@@ -154,6 +154,9 @@ class C18(Oracle):
             return spec["v"]
         if spec["k"] == "vec":
             return V.dec(spec.get("name"))
+        if spec["k"] == "col" and tsnap and tsnap[0] == "T" and spec["j"] < len(tsnap[1]):
+            n = tsnap[1][spec["j"]]
+            return ast.literal_eval(n[1]) if n[0] == "str" else None
         return None
 
     def _agg(self, env, rec, rs, a):
